@@ -85,6 +85,15 @@ class World:
 
     def build(self):
         """Constructs decider + representation. May raise (judged by the caller)."""
+        if self.rep_kind == "dsge":
+            # dynamic SGE takes its depth limit itself and never sees a tree decider: building one first
+            # would let the DECIDER reject an infeasible limit on the representation's behalf
+            self.rep = self.make_rep(None)
+            try:
+                self.decider = self.make_decider(self.random)
+            except Exception:  # noqa: BLE001 - only needed by ops that create trees directly
+                self.decider = None
+            return self.rep
         self.decider = self.make_decider(self.random)
         self.rep = self.make_rep(self.decider)
         return self.rep
